@@ -546,8 +546,9 @@ else branch (`state = Clean`); `utake` = `value.write().take()`; `uclearBegin` =
 `try_read_untracked` = `update_if_necessary` + `value.read().unwrap()`); `ulock` =
 `reactivity.write()`; `ustore` = store, `state = Clean`, unlock (yield `memo:unlocked`), then
 `mark_dirty` of every subscriber that is not the current `Observer` (`inner_2`); `markDirty`/`markSubsLock`/`markLoop` =
-`mark_dirty` + `mark_subscribers_check` (read lock held over the loop); `markCheck`/`markCheckLock`
-= `mark_check`; `setSig` = `ArcRwSignal::set` (subscriber set cloned, each `mark_dirty`). -/
+`mark_dirty` + `mark_subscribers_check` (subscribers cloned under the read lock, notified after it
+is released — 0488c9f; before: read lock held over the loop, `markHolds`); `markCheck`/
+`markCheckLock` = `mark_check`; `setSig` = `ArcRwSignal::set` (subscriber set cloned, each `mark_dirty`). -/
 namespace Graph
 
 inductive Src where
@@ -647,6 +648,10 @@ structure State where
   the subscriber's own write lock and unsubscribed after releasing it; `true` = the code before the
   repair (`initOld`): the lock is held while each source is locked -/
   clearHolds : Bool := false
+  /-- `false` = the repaired `MemoInner::mark_subscribers_check` / `mark_check` (0488c9f, F-C19-9):
+  the subscribers are notified from a snapshot, after the memo's own read lock is released;
+  `true` = the code before it: the read lock is held over the loop -/
+  markHolds : Bool := false
   /-- final read-back by the main thread: no yield point parks -/
   finalMode : Bool := false
   sig : Nat := 1
@@ -723,7 +728,8 @@ def exec (s : State) (t : Nat) : Option State :=
       go (setM s m { s.ms m with sources := [], w := if s.clearHolds then some t else none }) th
         (.uclearLoop m old (s.ms m).sources :: rest)
     | .uclearLoop m old [] =>
-      go (setM s m { s.ms m with w := none }) th (.yld .cleared :: .ufunBegin m old :: rest)
+      go (if s.clearHolds then setM s m { s.ms m with w := none } else s) th
+        (.yld .cleared :: .ufunBegin m old :: rest)
     | .ufunBegin m old =>
       go s { th with obs := m :: th.obs }
         (.ufun m old ((s.defs.getD m { f := .plus, reads := [] }).reads) [] :: rest)
@@ -761,15 +767,17 @@ def exec (s : State) (t : Nat) : Option State :=
       if !canW s m then none else go (setM s m { s.ms m with st := .dirty }) th rest
     | .markSubsLock m =>
       if !canR s m then none else
-      go (setM s m { s.ms m with r := t :: (s.ms m).r }) th (.markLoop m (s.ms m).subs :: rest)
-    | .markLoop m [] => go (setM s m { s.ms m with r := (s.ms m).r.erase t }) th rest
+      go (if s.markHolds then setM s m { s.ms m with r := t :: (s.ms m).r } else s) th
+        (.markLoop m (s.ms m).subs :: rest)
+    | .markLoop m [] => go (if s.markHolds then setM s m { s.ms m with r := (s.ms m).r.erase t } else s) th rest
     | .markLoop m (sub :: more) => go s th (.markCheck sub :: .markCheckLock sub :: .markLoop m more :: rest)
     | .markCheck m =>
       if !canW s m then none else
       go (setM s m { s.ms m with st := if (s.ms m).st == .dirty then .dirty else .check }) th rest
     | .markCheckLock m =>
       if !canR s m then none else
-      go (setM s m { s.ms m with r := t :: (s.ms m).r }) th (.markLoop m (s.ms m).subs :: rest)
+      go (if s.markHolds then setM s m { s.ms m with r := t :: (s.ms m).r } else s) th
+        (.markLoop m (s.ms m).subs :: rest)
     | .setSig v => go { s with sig := v } { th with cur := .unit } (marks s.sigSubs ++ rest)
     | .readOut m =>
       match (s.ms m).value with
@@ -840,9 +848,9 @@ def initClean (defs : List Def) (gateM gateL : Bool) (progs : List (List Op)) : 
   let s := readAll (init defs gateM gateL progs)
   setT s s.n {}
 
-/-- the code before the repair of F-C19-6 -/
+/-- the code before the repairs of F-C19-6 and F-C19-9 (as at the pinned commit) -/
 def initOld (defs : List Def) (gateM gateL : Bool) (progs : List (List Op)) : State :=
-  { init defs gateM gateL progs with clearHolds := true }
+  { init defs gateM gateL progs with clearHolds := true, markHolds := true }
 
 def initCleanOld (defs : List Def) (gateM gateL : Bool) (progs : List (List Op)) : State :=
   let s := readAll (initOld defs gateM gateL progs)
@@ -978,6 +986,37 @@ def run (s : State) : List ThreadId → State
 def lost (s : State) : Bool := s.apc == .parked && !s.woken && s.wpc == .done
 
 end AwaitW
+
+/-! ## Imm: one thread, an `ImmediateEffect` reading the last memo of a graph
+
+`effect/immediate.rs`: the effect runs synchronously inside `mark_check` / `mark_dirty`.  Before
+0488c9f a memo notified its subscribers while holding its own `reactivity` read lock, and the
+effect's body — reading the memo again — needed that lock for writing on the same thread: the
+first `set` never returned.  Compared observable: the op results, the last value the effect
+logged, and the final values (how often the synchronous effect runs inside one propagation is not
+C19's subject). -/
+namespace Imm
+
+structure Out where
+  results : List (Option Nat) := []   -- `none` = the result of a `set`
+  hung : Bool := false
+  last : Nat
+  sig : Nat := 1
+
+def watched (defs : List Graph.Def) (sig : Nat) : Nat := (Graph.scratch defs sig).getLastD 0
+
+/-- `old` = the code before 0488c9f -/
+def run (old : Bool) (defs : List Graph.Def) : List Graph.Op → Out → Out
+  | [], o => o
+  | .get j :: rest, o => run old defs rest { o with results := o.results ++ [some ((Graph.scratch defs o.sig).getD j 0)] }
+  | .set v :: rest, o =>
+    if old then { o with hung := true }
+    else run old defs rest { o with results := o.results ++ [none], sig := v, last := watched defs v }
+
+def exec (old : Bool) (defs : List Graph.Def) (prog : List Graph.Op) : Out :=
+  run old defs prog { last := watched defs 1 }
+
+end Imm
 
 /-- the tail both sides append to every schedule: 3 rounds of 8 entries per party -/
 def tail (n : Nat) : List ThreadId :=
